@@ -74,12 +74,15 @@ func (f *Func) Redefine(opts ...Arg) (*Func, error) {
 		callArgs := make([]Arg, len(opts))
 		copy(callArgs, opts)
 
-		// Setup our values
+		// Setup our values. We pass the struct fields themselves rather than
+		// their dynamic values so that an input of an interface type is
+		// still known under that interface type: a named argument only
+		// matches a value of exactly its type.
 		for name, f := range set.namedValues {
-			callArgs = append(callArgs, Named(name, v.Field(f.index).Interface()))
+			callArgs = append(callArgs, namedValue(name, v.Field(f.index)))
 		}
 		for _, f := range set.typedValues {
-			callArgs = append(callArgs, Typed(v.Field(f.index).Interface()))
+			callArgs = append(callArgs, typedValue(v.Field(f.index)))
 		}
 
 		// Call
